@@ -90,9 +90,19 @@ func (x *c01Ctx) reparsesTo(text string, d *c01Div) bool {
 // CoprocClause without a name whose command is a CallExpr that either has an
 // argument word positioned before one of its assignments (impossible for a
 // correctly parsed simple command), or (only when that call or its statement
-// is what was printed alone) whose first argument is a single literal that
-// has the shape of an assignment or is a reserved word.
+// is what was printed alone) whose first argument starts with a literal that
+// has the shape of an assignment (name=, name+=, name[..]=) or is a reserved
+// word.
 var c01AssignShape = regexp.MustCompile(`^[A-Za-z_][A-Za-z0-9_]*(\[[^\]]*\])?\+?=`)
+
+// c01ClauseWords are the literal words that start something other than a
+// simple command when they come first in a statement.
+var c01ClauseWords = map[string]bool{
+	"{": true, "}": true, "if": true, "then": true, "elif": true, "else": true, "fi": true, "while": true, "until": true, "for": true,
+	"do": true, "done": true, "case": true, "esac": true, "!": true, "[[": true, "]]": true, "let": true, "function": true,
+	"declare": true, "local": true, "export": true, "readonly": true, "typeset": true, "nameref": true, "time": true,
+	"coproc": true, "select": true, "@test": true,
+}
 
 func c01CoprocFirstWord(x *c01Ctx, d *c01Div) bool {
 	found := false
@@ -119,7 +129,9 @@ func c01CoprocFirstWord(x *c01Ctx, d *c01Div) bool {
 			}
 		}
 		if d.Kind == "tree" && (d.Node == syntax.Node(cc.Stmt) || d.Node == syntax.Node(ce)) && len(ce.Assigns) == 0 {
-			if lit := ce.Args[0].Lit(); lit != "" && (c01AssignShape.MatchString(lit) || syntax.IsKeyword(lit)) {
+			// the text up to the "=" is always within the word's first literal
+			first, _ := ce.Args[0].Parts[0].(*syntax.Lit)
+			if first != nil && c01AssignShape.MatchString(first.Value) || c01ClauseWords[ce.Args[0].Lit()] {
 				found = true
 				return false
 			}
